@@ -33,6 +33,8 @@ pub enum N {
     Acc(i32),
     Loop(usize, LoopForm, Vec<N>),
     For(usize, Vec<String>, bool, Vec<N>),
+    /// <for> over a list that mixes numbers and quoted strings; the body only shows the item
+    ForMixed(usize, Vec<String>),
     /// if with a test of known truth; form 0 literal, 1 comparison function on a constant, 2 expression in braces
     If(bool, u8, Vec<N>),
     Group(Vec<N>),
@@ -62,6 +64,7 @@ fn node(depth: u32) -> BoxedStrategy<N> {
             4 => (form, vec(inner.clone(), 1..4)).prop_map(|(f, b)| N::Loop(0, f, b)),
             2 => (vec(prop_oneof![Just("1"), Just("2"), Just("5"), Just("-3"), Just("0.5"), Just("10")], 1..5), any::<bool>(), vec(inner.clone(), 1..4)).prop_map(|(items, idx, b)| N::For(0, items.into_iter().map(|s| s.to_string()).collect(), idx, b)),
             2 => (any::<bool>(), 0u8..5, vec(inner.clone(), 1..4)).prop_map(|(t, f, b)| N::If(t, f, b)),
+            1 => vec(prop_oneof![Just("1"), Just("'two'"), Just("3.5"), Just("'x'"), Just("-4"), Just("'de luxe'")], 1..5).prop_map(|items| N::ForMixed(0, items.into_iter().map(|s| s.to_string()).collect())),
             1 => vec(inner.clone(), 1..4).prop_map(N::Group),
         ]
     })
@@ -75,6 +78,10 @@ fn number(prog: &mut [N], next: &mut usize) {
                 *id = *next;
                 *next += 1;
                 number(b, next);
+            }
+            N::ForMixed(id, _) => {
+                *id = *next;
+                *next += 1;
             }
             N::If(_, _, b) | N::Group(b) => number(b, next),
             _ => {}
@@ -151,6 +158,19 @@ fn render(prog: &[N], unroll: bool, vars: &mut Vec<String>, out: &mut Vec<X>) {
                     let mut e = XEl::new("if").a("test", test);
                     render(b, unroll, vars, &mut e.kids);
                     out.push(X::El(e));
+                }
+            }
+            N::ForMixed(id, items) => {
+                let (var, ivar) = (format!("s{id}"), format!("sx{id}"));
+                let body = XEl::new("text").a("xy", format!("30 {{{{${ivar} * 3}}}}")).a("text", format!("item ${var}."));
+                if unroll {
+                    for (k, it) in items.iter().enumerate() {
+                        // the value of a quoted item is the string between the quotes
+                        out.push(X::El(XEl::new("var").a(&var, it.trim_matches('\'').to_string()).a(&ivar, format!("{k}"))));
+                        out.push(X::El(body.clone()));
+                    }
+                } else {
+                    out.push(X::El(XEl::new("for").a("data", items.join(", ")).a("var", var.clone()).a("idx-var", ivar.clone()).kid(body)));
                 }
             }
             N::For(id, items, idx, b) => {
@@ -357,6 +377,10 @@ fn stats(prog: &[N]) -> (usize, bool) {
                 let (i2, d2) = stats(b);
                 it = it.max(i2);
                 dep |= d2 || matches!(f, LoopForm::While(_) | LoopForm::Until(_) | LoopForm::UntilVar(..) | LoopForm::WhileSigned(_));
+            }
+            N::ForMixed(_, items) => {
+                it = it.max(items.len());
+                dep = true;
             }
             N::For(_, items, _, b) => {
                 it = it.max(items.len());
